@@ -55,13 +55,18 @@ class NumpyConnector(BuiltinConnector):
     hafnian = instancemethod(hafnian_with_reduction)
     loop_hafnian = instancemethod(loop_hafnian_with_reduction)
     loop_hafnian_batch = instancemethod(loop_hafnian_with_reduction_batch)
-    calculate_interferometer_on_fock_space = instancemethod(
-        calculate_interferometer_on_fock_space
-    )
     calculate_interferometer_on_fermionic_fock_space = instancemethod(
         calculate_interferometer_on_fermionic_fock_space
     )
     density_matrix_from_gaussian = instancemethod(density_matrix_from_gaussian)
+
+    def calculate_interferometer_on_fock_space(self, interferometer, helper_indices):
+        if len(helper_indices[0]) == 0:
+            # NOTE: For cutoff <= 2 the helper index lists are empty, and Numba cannot
+            # infer the type of an empty list. Only the 0- and 1-particle blocks exist.
+            return [np.array([[1.0]], dtype=interferometer.dtype), interferometer]
+
+        return calculate_interferometer_on_fock_space(interferometer, helper_indices)
 
     def sqrtm(self, matrix):
         return scipy.linalg.sqrtm(matrix).astype(np.complex128)
